@@ -536,7 +536,9 @@ class AbstractExcelInPython(ABC):
         fallback = when_error if callable(when_error) else lambda: when_error
         try:
             cell = condition_function()
-            is_error = bool(self._find_error_in_list([cell]))
+            # a number too large for a cell (Excel shows #NUM!) or the not-a-number that infinities leave behind is an error value as well
+            is_error = bool(self._find_error_in_list([cell])) or (
+                isinstance(cell, float) and (cell != cell or cell in (float('inf'), float('-inf'))))
         except (RecursionError, MemoryError):
             # not an error of the guarded formula: the interpreter ran out of room somewhere on the way (a chain of several hundred
             # dependent cells). Handing out the fallback would give a silently wrong value that depends on the caller's stack depth.
